@@ -321,3 +321,17 @@ func (c *Ctx) Finish() {
 	}
 	os.Exit(0)
 }
+
+// Selected reports whether an instance name passes the VERIF_ONLY filter (comma-separated substrings).
+func Selected(name string) bool {
+	only := os.Getenv("VERIF_ONLY")
+	if only == "" {
+		return true
+	}
+	for _, p := range strings.Split(only, ",") {
+		if p != "" && strings.Contains(name, p) {
+			return true
+		}
+	}
+	return false
+}
